@@ -380,4 +380,95 @@ theorem parseExtHumanID_short (f : S_devicefinder_Default) (s : String) (dt : St
 
 example : goSplitN "otr-prof1-My-Phone" "-" 3 = ["otr", "prof1", "My-Phone"] := by decide
 
+/-! ## Database look-ups -/
+
+abbrev PD := Option S_agd_Profile × Option S_agd_Device × Option String
+def names (tr : List (String × List String)) : List String := tr.map (·.1)
+
+/-- `deviceByExtID`: the look-up key is the ext ID's *own* profile ID and its lower-cased human ID.
+Found ⇒ that profile and device.  Profile-not-found ⇒ nothing, whatever `CreateAutoDevice` would
+return.  Only device-not-found leads to `CreateAutoDevice`, with the same profile ID, the human ID as
+parsed and the ext ID's device type; any other error is an error without profile or device. -/
+theorem deviceByExtID_structure (f : S_devicefinder_Default) (x : S_devicefinder_extHumanID) (lower : String → String)
+    (byHuman : String → String → PD) (isProfNF isDevNF isProfNF' : Bool) (create : String → String → Int → PD) :
+    Default_deviceByExtID f (some x) lower byHuman isProfNF isDevNF create isProfNF' = some (
+      let r := byHuman x.ProfileID (lower x.HumanID)
+      if r.2.2.isNone then (r.1, r.2.1, none)
+      else if isProfNF then (none, none, none)
+      else if isDevNF then
+        let c := create x.ProfileID x.HumanID x.DeviceType
+        if c.2.2.isNone then (c.1, c.2.1, none)
+        else if isProfNF' then (none, none, none)
+        else (none, none, some "fmt.Errorf(\"creating autodevice: %w\", err)")
+      else (none, none, some "fmt.Errorf(\"querying profile db by human id: %w\", err)")) := by
+  unfold Default_deviceByExtID
+  simp
+  (repeat' split) <;> simp_all
+
+/-- It panics exactly on a nil ext ID (the caller checks `extID != nil`). -/
+theorem deviceByExtID_panic_iff (f : S_devicefinder_Default) (x : Option S_devicefinder_extHumanID) (lower : String → String)
+    (byHuman : String → String → PD) (a b c : Bool) (create : String → String → Int → PD) :
+    Default_deviceByExtID f x lower byHuman a b create c = none ↔ x = none := by
+  cases x with
+  | none => simp [Default_deviceByExtID]
+  | some x => simp [deviceByExtID_structure]
+
+/-- `deviceFromDB`, precedence 1: a non-empty device ID is the only thing looked up — the result is
+`newDeviceResult` of `ProfileByDeviceID(id)` for *that* id; the ext ID, the addresses and the protocol
+play no role. -/
+theorem deviceFromDB_by_id (f : S_devicefinder_Default) (id : String) (x : Option S_devicefinder_extHumanID)
+    (byID : String → PD) (ndr : Option S_agd_Profile → Option S_agd_Device → String → Option String → AbsPtr)
+    (byExt : Option S_devicefinder_extHumanID → PD) (addrs : AbsPtr) (h : id ≠ "") :
+    Default_deviceFromDB f id x byID ndr byExt addrs =
+      some (ndr (byID id).1 (byID id).2.1 "device id" (byID id).2.2,
+            [("ProfileByDeviceID", ["_", id]), ("newDeviceResult", ["_", "_", "_", "device id", "_"])]) := by
+  simp [Default_deviceFromDB, h]
+
+/-- Precedence 2: no device ID but an extended human ID ⇒ only `deviceByExtID` of that ext ID. -/
+theorem deviceFromDB_by_ext (f : S_devicefinder_Default) (x : S_devicefinder_extHumanID)
+    (byID : String → PD) (ndr : Option S_agd_Profile → Option S_agd_Device → String → Option String → AbsPtr)
+    (byExt : Option S_devicefinder_extHumanID → PD) (addrs : AbsPtr) :
+    Default_deviceFromDB f "" (some x) byID ndr byExt addrs =
+      some (ndr (byExt (some x)).1 (byExt (some x)).2.1 "human id" (byExt (some x)).2.2,
+            [("deviceByExtID", ["_", "_"]), ("newDeviceResult", ["_", "_", "_", "human id", "_"])]) := by
+  simp [Default_deviceFromDB]
+
+/-- Precedence 3: no identifier at all.  Only a plain-DNS server goes on to the addresses; on every
+other transport the result is nil and *nothing* is looked up. -/
+theorem deviceFromDB_no_id (f : S_devicefinder_Default) (srv : S_agd_Server)
+    (byID : String → PD) (ndr : Option S_agd_Profile → Option S_agd_Device → String → Option String → AbsPtr)
+    (byExt : Option S_devicefinder_extHumanID → PD) (addrs : AbsPtr) (hsrv : f.srv = some srv) :
+    Default_deviceFromDB f "" none byID ndr byExt addrs =
+      some (if srv.Protocol = 8 then (addrs, [("deviceByAddrs", ["_", "_", "_"])]) else (false, [])) := by
+  by_cases hp : srv.Protocol = 8 <;> simp [Default_deviceFromDB, hsrv, hp]
+
+/-- `deviceByAddrs`: a server bound to interfaces that does not own the local address is a dedicated
+address — only `deviceByLocalAddr` is used and the linked IP is never consulted.  Otherwise the linked
+IP is consulted only where enabled; disabled ⇒ nil with no look-up. -/
+theorem deviceByAddrs_structure (f : S_devicefinder_Default) (srv : S_agd_Server) (binds has : Bool) (loc : AbsPtr)
+    (linked : PD) (ndr : Option S_agd_Profile → Option S_agd_Device → String → Option String → AbsPtr)
+    (hsrv : f.srv = some srv) :
+    Default_deviceByAddrs f binds has loc linked ndr = some (
+      if binds && !has then (loc, [("deviceByLocalAddr", ["_", "_"])])
+      else if !srv.LinkedIPEnabled then (false, [])
+      else (ndr linked.1 linked.2.1 "linked ip" linked.2.2,
+            [("ProfileByLinkedIP", ["_", "_"]), ("newDeviceResult", ["_", "_", "_", "linked ip", "_"])])) := by
+  unfold Default_deviceByAddrs
+  cases binds <;> cases has <;> cases hl : srv.LinkedIPEnabled <;> simp [hsrv, hl]
+
+theorem dedicated_never_linked (f : S_devicefinder_Default) (loc : AbsPtr) (linked : PD)
+    (ndr : Option S_agd_Profile → Option S_agd_Device → String → Option String → AbsPtr) :
+    ∃ r, Default_deviceByAddrs f true false loc linked ndr = some r ∧ r.1 = loc ∧ "ProfileByLinkedIP" ∉ names r.2 := by
+  simp [Default_deviceByAddrs, names]
+
+/-- `newDeviceResult` is nil exactly when the look-up found no profile or failed with a not-found
+error; any other error is a (non-nil) error result. -/
+theorem newDeviceResult_nil_iff (f : S_devicefinder_Default) (p : Option S_agd_Profile) (d : Option S_agd_Device)
+    (by' : String) (err : Option String) (nf : Bool) :
+    Default_newDeviceResult f p d by' err nf = false ↔ (err = none ∧ p = none) ∨ (err ≠ none ∧ nf = true) := by
+  unfold Default_newDeviceResult
+  cases err <;> cases p <;> cases nf <;> simp
+
+theorem isProfileDBNotFound_eq (err : Option String) (a b : Bool) : isProfileDBNotFound err a b = (a || b) := rfl
+
 end Agd.Tie.TrC03
